@@ -121,6 +121,12 @@ def s(self, tree, tree_node_data=None, log_p=None, num_nodes=None, multiplicity=
     # c_const: default 1000, stored as its logarithm
     init = prog.fn("FSCRPDistribution.__init__")
     d = func_defaults(init.node).get("c_const")
+    if d is not None and isinstance(d, ast.Name):
+        # a literal moved to a module-level constant bound once
+        binds = [st.value for st in init.module.tree.body if isinstance(st, ast.Assign) and len(st.targets) == 1 and isinstance(st.targets[0], ast.Name) and st.targets[0].id == d.id]
+        stores = [n for n in ast.walk(init.module.tree) if isinstance(n, ast.Name) and n.id == d.id and isinstance(n.ctx, ast.Store)]
+        if len(binds) == 1 and len(stores) == 1 and isinstance(binds[0], ast.Constant):
+            d = binds[0]
     ctx.check(d is not None and u(d) == "1000", "T1", "FSCRPDistribution.__init__: c_const default is 1000 (the 1/1000 penalty per additional top-level clone)", init.where(), "default penalty constant is %s, the statement's is 1000" % (u(d) if d is not None else "absent"), construct=init.qualname, stmt="c_const default")
     setter = prog.fn("FSCRPDistribution.c_const@setter")
     ex = extract(prog, setter)
